@@ -425,7 +425,9 @@ func (r *Run) Exec(n int, opts ExecOpts, gen func(i int) *Item) {
 		opts.Batch = 200
 	}
 	if opts.WallSecs <= 0 {
-		opts.WallSecs = 900
+		// (generous: a worker that is stuck is stopped by its own blocked-call guard after 40 idle seconds; this one
+		// only ends batches that a loaded machine could not finish in an hour)
+		opts.WallSecs = 3600
 	}
 	type job struct{ lo, hi int }
 	jobs := make(chan job, 64)
